@@ -36,7 +36,7 @@ na = []
 for p in props:
     if p not in claimed:
         na.append({'property_id': p, 'reason': NOT_APPLICABLE.get(
-            p, 'check not built yet in this snapshot of /verif (work in progress; see DESIGN.md section 10)')})
+            p, 'check not built yet in this snapshot of /verif (work in progress; see DESIGN.md)')})
 manifest = {
     'version': 1,
     'setup_cmd': 'PYTHONPATH=/repo:/verif /venv/bin/python -m harness.extract_tables >/dev/null && cd lean && lake build',
